@@ -4,6 +4,11 @@ import json, os, subprocess
 V = os.path.dirname(os.path.abspath(__file__))
 
 CHECKS = {
+ 'C15': dict(cat='fault_enumeration', tech='deallocator monitor (link-time --wrap) over every exit of every secret-taking call: success, authentication failure and each enumerated allocation-fault index',
+             text='Every block handed back to the allocator during a secret-taking high-level call is snapshotted at the moment of release and scanned for 8-octet windows of the secret inputs, their '
+                  'expanded forms (belt key schedule, HMAC ipad/opad, hashed long keys) and module-specific derived secrets, on the success exit, on authentication-failure exits and on every '
+                  'allocation-fault exit (fail exactly the i-th allocation, for all i).',
+             note='trusted: link-time --wrap of free/realloc; needle derivation from the reference models; constant keys skipped (indistinguishable from wiped memory)', ref='4/C15'),
  'C09': dict(cat='fault_enumeration', tech='exhaustive fault-point enumeration (fail exactly the i-th allocation for every i) plus exhaustive argument-boundary sweeps and single-bit authentication corruptions on the real code under ASan',
              text='For every high-level call of the corpora the number N of allocation points is measured and the call is re-run N times with exactly the i-th allocation failing (malloc and realloc, realloc always moving): '
                   'it must return an error, leave nothing allocated and not crash; each length/scalar argument is swept across and beyond its documented domain and must give the documented error class with all writes '
